@@ -22,3 +22,4 @@ func verifReplay(fs *fileStore, e *WALEntry, redo bool)                  {}
 func verifLRU(l *LRUCache, kind int, key any, n *btreeNode)              {}
 func verifWalTruncate(file any, size int64)                              {}
 func verifWalWrap(r readWriteSyncCloser) readWriteSyncCloser             { return r }
+func verifOpenFault(path string) error                                   { return nil }
